@@ -11,7 +11,7 @@ from ..space import ops
 
 PID = "C06"
 LEVEL = "exploration"
-RULE = ("operations with every declared-response set of size<=3 over {200, 204, 302, 404, 422, 500, default, default+content} x EVERY status 100..599 outside "
+RULE = ("operations with every declared-response set of size<=3 over {200, 204, 302, 404, 422, 499, 500, 520, default, default+content} (499/520: error codes without a named exception class) x EVERY status 100..599 outside "
         "200-299 answered by the in-memory server x transport in {bundled HttpxTransport, custom pass-through transport that returns non-2xx unraised}; "
         "each call must raise an instance of the package's HTTPError carrying that status and the response; 4xx -> ClientError, 5xx -> ServerError. "
         "non-trivial = distinct (declared set, status, transport) calls")
@@ -23,8 +23,8 @@ BOUND = {"quick": "84 declared sets x 400 statuses x 2 transports", "thorough": 
 CHUNK = 1
 PACK = 6
 
-ELEMS = ["200", "204", "302", "404", "422", "500", "default", "default+content"]
-CONTENT = {"200": "json-model", "204": "none", "302": "none", "404": "json-model", "422": "none", "500": "json-model", "default": "none",
+ELEMS = ["200", "204", "302", "404", "422", "499", "500", "520", "default", "default+content"]
+CONTENT = {"200": "json-model", "204": "none", "302": "none", "404": "json-model", "422": "none", "499": "none", "500": "json-model", "520": "json-model", "default": "none",
            "default+content": "json-model"}
 STATUSES = [s for s in range(100, 600) if not 200 <= s <= 299]
 
